@@ -35,6 +35,7 @@ import (
 	"strconv"
 	"strings"
 	"sync"
+	"time"
 	"unsafe"
 )
 
@@ -501,6 +502,8 @@ func Snapshot(u *Unit) (h uint64, ok bool) {
 
 type hasher interface{ Write([]byte) (int, error) }
 
+var timeType = reflect.TypeOf(time.Time{})
+
 func shallow(hs hasher, v reflect.Value, depth int) {
 	if !v.IsValid() || depth > 8 {
 		return
@@ -545,6 +548,13 @@ func shallow(hs hasher, v reflect.Value, depth int) {
 		if isSyncMap(t) {
 			// a sync.Map synchronises its own content: storing into it is not a write to the unit that contains it; what
 			// is stored in it is walked (walkSyncMap) and snapshotted as units of its own
+			return
+		}
+		if t == timeType {
+			// round 4: a wall-clock reading is plain data (two integers and a location): a time stamp kept in a shared unit and
+			// overwritten by every shot is a write like any other
+			tv := addressable(v)
+			fmt.Fprint(hs, "t", launder(tv.Field(0)).Uint(), launder(tv.Field(1)).Int())
 			return
 		}
 		if !descendStruct(t) {
